@@ -64,6 +64,7 @@ THEOREMS = {
         "Shroud.Scope.cli_lookup",
         "Shroud.Scope.cli_crash_sites",
         "Shroud.Scope.create_wrapper_matches_parser",
+        "Shroud.Scope.config_no_shared_state",
     ]
 }
 
@@ -872,7 +873,28 @@ def run_doc_fresh(text, libname, scr, tag, cmdline=()):
 
 
 def _nodecl(data):
-    return b"\n".join(l for l in data.split(b"\n") if b'"decl":' not in l)
+    """JSON debug dump without what necessarily differs between the two spellings: the quoted declaration text and
+    an attribute dictionary that holds nothing but the YAML line number of an attrs/fattrs entry (dumped as `{}`)."""
+    try:
+        obj = json.loads(data.decode())
+    except ValueError:
+        return data
+
+    def clean(x):
+        if isinstance(x, dict):
+            out = {}
+            for k, v in x.items():
+                if k == "decl":
+                    continue
+                v = clean(v)
+                if k == "attrs" and v == {}:
+                    continue
+                out[k] = v
+            return out
+        if isinstance(x, list):
+            return [clean(v) for v in x]
+        return x
+    return json.dumps(clean(obj), sort_keys=True, indent=1).encode()
 
 
 def first_diff(ta, tb, skip_json=True):
@@ -905,7 +927,7 @@ class Oracle:
         self.effective = collections.Counter()   # pairs where the customisation changed the output vs base
         self.errors = collections.Counter()
 
-    def compare_docs(self, kind, key, what, doc_a, doc_b, base_tree=None, skip_json=True):
+    def compare_docs(self, kind, key, what, doc_a, doc_b, base_tree=None, skip_json=True, error_types_only=False):
         """Run both in-process; a difference is confirmed in fresh processes before it is reported."""
         self.n += 1
         tag = "p%d" % self.n
@@ -914,7 +936,8 @@ class Oracle:
         self.ctx.count(1)
         self.kinds[kind] += 1
         if ea or eb:
-            if ea == eb:
+            same = (ea == eb) or (error_types_only and ea and eb and ea.split(":")[0] == eb.split(":")[0])
+            if same:
                 self.errors[kind] += 1
                 return True
             diff = ("<exception>", "first: %s / second: %s" % (ea, eb))
@@ -966,6 +989,127 @@ def attr_variants(r):
          {"arr": {"dimension": "n"}}, None),
     ]
     return r.choice(cases)
+
+
+def harvest_attr_names():
+    """The attribute names the checker accepts, read from the working tree (AST scan of generate.py):
+    every `attr not in [ "...", ... ]` list inside check_fcn_attrs / check_arg_attrs / check_var_attrs."""
+    import ast as pyast
+    src = open(os.path.join(common.REPO, "shroud", "generate.py")).read()
+    res = {}
+    for fn in pyast.walk(pyast.parse(src)):
+        if isinstance(fn, pyast.FunctionDef) and fn.name in ("check_fcn_attrs", "check_arg_attrs", "check_var_attrs"):
+            names = []
+            for n in pyast.walk(fn):
+                if (isinstance(n, pyast.Compare) and len(n.ops) == 1 and isinstance(n.ops[0], pyast.NotIn)
+                        and isinstance(n.left, pyast.Name) and n.left.id == "attr"
+                        and isinstance(n.comparators[0], (pyast.List, pyast.Tuple))):
+                    names += [e.value for e in n.comparators[0].elts if isinstance(e, pyast.Constant)]
+            res[fn.name] = names
+    return res
+
+
+# values to try per attribute: ("flag",) | ("paren", text) | ("eq", python value, text)
+ATTR_VALUES = {
+    "intent": [("paren", "in"), ("paren", "out"), ("paren", "inout")],
+    "deref": [("paren", "allocatable"), ("paren", "pointer"), ("paren", "raw"), ("paren", "scalar")],
+    "owner": [("paren", "caller"), ("paren", "library")],
+    "name": [("paren", "renamed")],
+    "rank": [("paren", "1"), ("eq", 1, "1")],
+    "dimension": [("paren", "n"), ("paren", "3")],
+    "len": [("paren", "30"), ("eq", 30, "30")],
+    "len_trim": [("paren", "n")],
+    "size": [("paren", "n")],
+    "implied": [("paren", "size(arg)")],
+    "charlen": [("paren", "20")],
+    "free_pattern": [("paren", "fp1")],
+    "value": [("flag",)],
+}
+ATTR_DEFAULT_VALUES = [("flag",), ("paren", "n")]
+
+# hosts: (where, decl with {A} marking the place of the attribute text, name of the argument or None for the function)
+FUNC_HOSTS = [
+    ("free", "int * {n}(int n){A}", None),
+    ("free", "const char * {n}(){A}", None),
+    ("free", "const std::string & {n}(){A}", None),
+    ("free", "int {n}(int n){A}", None),
+    ("free", "void {n}(){A}", None),
+    ("method", "int * {n}(int n){A}", None),
+    ("method", "const std::string & {n}(){A}", None),
+    ("method", "void {n}() const{A}", None),
+    ("ctor", "Thing(){A}", None),
+    ("ctor", "Thing(int n){A}", None),
+    ("dtor", "~Thing(){A}", None),
+]
+ARG_HOSTS = [
+    ("free", "void {n}(int *arg{A}, int n)", "arg"),
+    ("free", "void {n}(char *arg{A}, int n)", "arg"),
+    ("free", "void {n}(const std::string & arg{A})", "arg"),
+    ("free", "void {n}(int arg{A})", "arg"),
+    ("free", "void {n}(double **arg{A}, int *n +intent(out))", "arg"),
+    ("method", "void {n}(int *arg{A}, int n)", "arg"),
+    ("ctor", "Thing(int arg{A})", "arg"),
+]
+
+
+def attr_pair_docs(where, host, argname, attr, form, idx, python):
+    if form[0] == "flag":
+        text, val = " +%s" % attr, True
+    elif form[0] == "paren":
+        text, val = " +%s(%s)" % (attr, form[1]), form[1]
+    else:
+        text, val = " +%s=%s" % (attr, form[2]), form[1]
+    fname = "h%d" % idx
+    inline = host.replace("{A}", text).replace("{n}", fname)
+    bare = host.replace("{A}", "").replace("{n}", fname)
+    extra = {"attrs": {argname: {attr: val}}} if argname else {"fattrs": {attr: val}}
+    keep = ("fn", "g1", {}, {}, "int {n}(int q)")
+
+    def mk(decl, ex):
+        f = ("fn", fname, {}, {}, decl) + ((ex,) if ex else ())
+        if where == "free":
+            tree = [keep, f]
+        else:
+            other = ("fn", "m1", {}, {}, "int {n}(int q)")
+            tree = [keep, ("cls", "Thing", {}, {}, [other, f])]
+        return {"library": "att", "cxx_header": "att.hpp", "options": {"debug_testsuite": True, "wrap_python": python},
+                "tree": tree}
+    return mk(inline, None), mk(bare, extra), inline
+
+
+def oracle_attrs(ctx, orc, r, thorough):
+    names = harvest_attr_names()
+    ctx.note("harvested_attribute_names", names)
+    if not names.get("check_fcn_attrs") or not names.get("check_arg_attrs"):
+        ctx.tie_broken("attribute-harvest", "no accepted-attribute list found in generate.py")
+    dist = collections.Counter()
+    idx = 0
+    for kind, hosts, alist in (("function", FUNC_HOSTS, names.get("check_fcn_attrs", [])),
+                               ("argument", ARG_HOSTS, names.get("check_arg_attrs", []))):
+        for attr in alist:
+            forms = ATTR_VALUES.get(attr, ATTR_DEFAULT_VALUES)
+            combos = [(h, f) for h in hosts for f in forms]
+            if not thorough:
+                # quick: every attribute name on every kind of host (free function, method, constructor), one value each,
+                # plus a seeded sample of the other combinations
+                seen, must, rest = set(), [], []
+                for h, f in combos:
+                    if h[0] not in seen:
+                        seen.add(h[0]); must.append((h, f))
+                    else:
+                        rest.append((h, f))
+                combos = must + r.sample(rest, min(2, len(rest)))
+            for (where, host, argname), form in combos:
+                idx += 1
+                a, b, inline = attr_pair_docs(where, host, argname, attr, form, idx, python=(idx % 3 == 0))
+                before = orc.errors["attrs"]
+                orc.compare_docs("attrs", "attrs:%s:%s:%s:%s" % (kind, attr, where, form[0]),
+                                 "inline attribute vs %s entry: %s" % ("attrs" if argname else "fattrs", inline),
+                                 a, b, skip_json="nodecl", error_types_only=True)
+                dist["%s.%s.%s" % (kind, attr, "rejected" if orc.errors["attrs"] > before else "accepted")] += 1
+    ctx.note("attribute_pairs_distribution", dict(dist))
+    never = sorted(set(k.rsplit(".", 1)[0] for k in dist) - set(k.rsplit(".", 1)[0] for k in dist if k.endswith(".accepted")))
+    ctx.note("attributes_never_accepted_by_a_generated_host", never)
 
 
 def oracle_pairs(ctx, scr, thorough, fs_options, fs_formats, defaults_o, defaults_f):
@@ -1094,6 +1238,8 @@ def oracle_pairs(ctx, scr, thorough, fs_options, fs_formats, defaults_o, default
         orc.compare_docs("attrs", "attrs:%s" % inline.split("(")[0].split()[-1] if False else "attrs:%d" % i,
                          "inline attributes vs attrs/fattrs: %s" % inline, a, b, skip_json="nodecl")
 
+    oracle_attrs(ctx, orc, r, thorough)
+
     # ---------- YAML fields vs --option / --language (fresh processes, real command line)
     cli_cases = [
         ({"wrap_python": True, "debug": True}, "c"),
@@ -1178,10 +1324,104 @@ def oracle_pairs(ctx, scr, thorough, fs_options, fs_formats, defaults_o, default
                          {"kind": "create_wrapper", "first": text, "second": text, "file": diff[0]})
             else:
                 ctx.nontrivial("create_wrapper:%d" % i)
+    oracle_create_wrapper_sequences(ctx, orc, scr, r, thorough)
     ctx.note("oracle_pairs_by_kind", dict(orc.kinds))
     ctx.note("oracle_pairs_effective", dict(orc.effective))
     ctx.note("oracle_pairs_both_rejected", dict(orc.errors))
     return orc
+
+
+CW_LIBS = {
+    # libraries that need shared C/Fortran helpers (strings, vectors, pointer results) and ones that need none
+    "strlib": ["const std::string & {n}(const std::string & name)", "void {n}(std::vector<int> &arg +intent(in))",
+               "int * {n}() +dimension(3)", "const char * {n}()"],
+    "numlib": ["int {n}(int a, double b)", "void {n}()", "bool {n}(bool flag)"],
+    "ptrlib": ["void {n}(int *arr +intent(inout)+dimension(n), int n)", "void {n}(char *s +intent(out)+charlen(20))",
+               "double {n}(double *v +intent(in)+rank(1), int nv)"],
+    "clslib": None,
+}
+
+
+def _cw_doc(name, r):
+    if CW_LIBS[name] is None:
+        tree = [("cls", "Thing", {}, {}, [("fn", "k1", {}, {}, "Thing() +name(create)"), ("fn", "k2", {}, {}, "~Thing() +name(destroy)"),
+                                          ("fn", "k3", {}, {}, "const std::string & {n}()"), ("fn", "k4", {}, {}, "int * {n}() +dimension(2)")]),
+                ("fn", "k5", {}, {}, "void {n}(std::vector<double> &arg +intent(out))")]
+    else:
+        tree = [("fn", "%s%d" % (name[0], j), {}, {}, d) for j, d in enumerate(CW_LIBS[name])]
+    return {"library": name, "cxx_header": name + ".hpp", "options": {"wrap_python": r.random() < 0.5, "wrap_lua": False}, "tree": tree}
+
+
+def oracle_create_wrapper_sequences(ctx, orc, scr, r, thorough):
+    """create_wrapper called several times in ONE process (different libraries, the same library twice): each call's
+    output directory and returned file lists must equal a fresh command-line run of that library alone."""
+    names = sorted(CW_LIBS)
+    docs = {n: doc_yaml(_cw_doc(n, r)) for n in names}
+    cli = {}
+    env = dict(os.environ, PYTHONPATH=common.REPO, PYTHONDONTWRITEBYTECODE="1")
+    for n in names:
+        d = os.path.join(scr, "cwseq-cli-" + n)
+        os.makedirs(os.path.join(d, "out"))
+        shroudrun.write_yaml(d, n + ".yaml", docs[n])
+        p = subprocess.run([sys.executable, "-c", "from shroud.main import main; main()", "--outdir", "out",
+                            "--cfiles", "cf.txt", "--ffiles", "ff.txt", n + ".yaml"],
+                           cwd=d, env=env, stdout=subprocess.PIPE, stderr=subprocess.STDOUT, text=True, timeout=300)
+        if p.returncode != 0:
+            ctx.note("cwseq_cli_rejected_" + n, p.stdout[-300:])
+            cli[n] = None
+            continue
+        cli[n] = (shroudrun.read_tree(os.path.join(d, "out")), open(os.path.join(d, "cf.txt")).read().split(),
+                  open(os.path.join(d, "ff.txt")).read().split())
+    seqs = [["strlib", "numlib", "strlib"], ["clslib", "ptrlib", "numlib", "clslib"]]
+    for _ in range(4 if thorough else 1):
+        seqs.append([r.choice(names) for _ in range(r.randrange(2, 5))])
+    lens = collections.Counter()
+    for si, seq in enumerate(seqs):
+        if any(cli[n] is None for n in seq):
+            continue
+        d = os.path.join(scr, "cwseq-api-%d" % si)
+        os.makedirs(d)
+        calls = []
+        for ci, n in enumerate(seq):
+            shroudrun.write_yaml(d, n + ".yaml", docs[n])
+            os.makedirs(os.path.join(d, "o%d" % ci))
+            calls.append((n + ".yaml", "o%d" % ci))
+        code = ("import json, shroud\nres = []\n"
+                "for y, o in %r:\n    c = shroud.create_wrapper(y, outdir=o)\n    res.append([list(c.cfiles), list(c.ffiles)])\n"
+                "print('RESULT' + json.dumps(res))\n" % (calls,))
+        p = subprocess.run([sys.executable, "-c", code], cwd=d, env=env, stdout=subprocess.PIPE, stderr=subprocess.STDOUT,
+                           text=True, timeout=600)
+        ctx.count(len(seq))
+        orc.kinds["create_wrapper_sequence_calls"] += len(seq)
+        lens[len(seq)] += 1
+        replay = {"kind": "create_wrapper", "sequence": seq, "first": "\n---\n".join(docs[n] for n in seq), "second": ""}
+        if p.returncode != 0:
+            exc = p.stdout.strip().split("\n")[-1]
+            ctx.fail("create_wrapper-seq:" + exc.split(":")[0], "create_wrapper sequence %s: %s" % (seq, exc[:200]),
+                     dict(replay, output=p.stdout[-600:]))
+            continue
+        lists = json.loads([l for l in p.stdout.split("\n") if l.startswith("RESULT")][0][6:])
+        bad = False
+        for ci, n in enumerate(seq):
+            tree = shroudrun.read_tree(os.path.join(d, "o%d" % ci))
+            ctree, ccf, cff = cli[n]
+            diff = first_diff(tree, ctree, skip_json=False)
+            what = None
+            if diff:
+                what = "output of call %d (%s) differs from the command line in %s (%s)" % (ci + 1, n, diff[0], diff[1])
+            elif ([os.path.relpath(x, "o%d" % ci) for x in lists[ci][0]] != [os.path.relpath(x, "out") for x in ccf]
+                  or [os.path.relpath(x, "o%d" % ci) for x in lists[ci][1]] != [os.path.relpath(x, "out") for x in cff]):
+                what = "config.cfiles/ffiles of call %d (%s) = %s / %s, command line --cfiles/--ffiles = %s / %s" % (
+                    ci + 1, n, lists[ci][0], lists[ci][1], ccf, cff)
+            if what:
+                bad = True
+                ctx.fail("create_wrapper-seq:call%d" % (ci + 1), "create_wrapper sequence %s: %s" % (seq, what),
+                         dict(replay, call=ci + 1, library=n))
+                break
+        if not bad:
+            ctx.nontrivial("create_wrapper-seq:%s" % ",".join(seq))
+    ctx.note("create_wrapper_sequence_lengths", dict(lens))
+    ctx.note("create_wrapper_sequences", seqs)
 
 
 class _Fixed:
